@@ -19,6 +19,17 @@ def sample_eval(o):
             "res": r.get("res"), "eff": r.get("eff")}
 
 
+def jtry():
+    return {"module": "JudgeTry", "cfg": "JudgeTry.cfg"}
+
+
+def sample_try(o):
+    t = o["tries"][len(o["tries"]) // 2] if o.get("tries") else {}
+    return {"src": o["src"], "variant": o["var"].get("m"), "available": t.get("av"),
+            "env": o["envs"][t["e"] - 1] if t else None, "tryeval": t.get("res"),
+            "eval_under_completions": [e["res"] for e in t.get("evals", [])][:4]}
+
+
 PLANS = {
     "C01": {
         "mc": {"quick": [{"module": "MCEval", "cfg": "cfg/MCEval.C01.quick.cfg"}],
@@ -78,4 +89,42 @@ PLANS = {
                 "the calls again, deferred failure = Den; non-trivial = constant folding changes the tree",
         "sample": sample_eval, "assumptions": EVAL_ASSUME,
     },
+    "C04": {
+        "mc": {"quick": [{"module": "MCTry", "cfg": "cfg/MCTry.quick.cfg"}],
+               "thorough": [{"module": "MCTry", "cfg": "cfg/MCTry.thorough.cfg", "timeout": 3400}]},
+        "drive": {"quick": [{"args": ["try", "-for", "C04", "-exh", "1", "-exhmax", "150", "-n", "450", "-depth", "4",
+                                      "-seed", "{seed}", "-progevery", "8"]}],
+                  "thorough": [{"args": ["try", "-for", "C04", "-exh", "2", "-exhmax", "6000", "-n", "9000", "-depth", "5",
+                                         "-seed", "{seed}", "-progevery", "50"]}]},
+        "judge": jtry(),
+        "replay_args": ["try", "-for", "C04", "-n", "0", "-progevery", "1"],
+        "rule": "one evaluation = (source tree, option subset / cost map, binding, available/unavailable split) with Eval "
+                "run under up to 8 completions of the unavailable variables; judged: Sound (definite TryEval = Eval under "
+                "every completion for which Eval succeeds), AgreeWhenAll, Monotone over the recorded splits, TryEvalBool "
+                "mirrors TryEval; non-trivial = a definite answer while some variable is unavailable",
+        "sample": sample_try, "assumptions": EVAL_ASSUME,
+    },
+    "C05": {
+        "mc": {"quick": [{"module": "MCTry", "cfg": "cfg/MCTry.quick.cfg"}],
+               "thorough": [{"module": "MCTry", "cfg": "cfg/MCTry.thorough.cfg", "timeout": 3400}]},
+        "drive": {"quick": [{"args": ["try", "-for", "C05", "-exh", "1", "-exhmax", "200", "-n", "900", "-depth", "4",
+                                      "-seed", "{seed}", "-progevery", "8"]}],
+                  "thorough": [{"args": ["try", "-for", "C05", "-exh", "2", "-exhmax", "8000", "-n", "20000", "-depth", "5",
+                                         "-seed", "{seed}", "-progevery", "50"]}]},
+        "judge": jtry(),
+        "replay_args": ["try", "-for", "C05", "-n", "0", "-progevery", "1"],
+        "rule": "one evaluation = (source tree, option subset / cost map, binding, available/unavailable split); judged on "
+                "expressions none of whose sub-expressions fail: Kleene definite => TryEval returns it, Kleene unknown => "
+                "DNE or a definite value (never an error), TryEvalBool = ErrDNE exactly for DNE; non-trivial = Kleene is "
+                "definite while some variable is unavailable",
+        "sample": sample_try, "assumptions": EVAL_ASSUME,
+    },
 }
+
+ENGINES = [
+    {"name": "eval", "path": "spec/ (Values, Operators, Semantics, Optimizer, Layout, Machine, MCEval, MCFold, MCTry, JudgeEval, JudgeTry) + harness/",
+     "serves_properties": ["C01", "C02", "C03", "C04", "C05", "C10"],
+     "kind_free_text": "TLA+ specification of optimizer, layout and the Eval/TryEval stack machines; TLC bounded model checking; "
+                       "TLC trace validation of observations recorded by the Go harness from the real code"},
+]
+NOT_APPLICABLE = {}
